@@ -839,6 +839,28 @@ def run(ctx):
     ctx.ob("C12.expiry", ct.short(), "runs-time-validity", runs,
            "garbage collection applies the time-validity predicate on every path" if runs else
            "collect_trash can finish without having run check_and_delete_time_validity: expired objects stay in the store", ct.loc)
+    # ... in every variant of the maintenance: an override of collect_trash runs the check, or hands over to the inherited
+    # collect_trash, on every normal exit (a throttle inside the override drops an explicit maintenance run for good)
+    for ci_ in [c_ for c_ in P.classes.values() if c_ is not ct.cls and ct.cls in c_.mro() and "collect_trash" in c_.methods]:
+        ov = ci_.methods["collect_trash"]
+        ofl = ctx.flows.get(ov)
+        o_normal = [st for k, s_, st in ofl.exits if k in ("return", "fall")]
+        def _runs(st):
+            for f in st.facts:
+                if f.kind != "call":
+                    continue
+                if ch.qual in f.targets or ct.qual in f.targets:
+                    return True
+                fn_ = f.node.func if isinstance(f.node, ast.Call) else None
+                if isinstance(fn_, ast.Attribute) and fn_.attr == "collect_trash" and isinstance(fn_.value, ast.Call) and \
+                        dotted(fn_.value.func) == "super":
+                    return True
+            return False
+        o_runs = bool(o_normal) and all(_runs(st) for st in o_normal)
+        ctx.ob("C12.expiry", ov.short(), "runs-time-validity", o_runs,
+               "the overriding collect_trash applies the time-validity predicate (or the inherited pass) on every path" if o_runs else
+               "the overriding collect_trash can return without running the time-validity pass: an explicit maintenance run is silently "
+               "dropped and expired objects are still answered afterwards", ov.loc)
     # reactive maintenance: adding an object triggers garbage collection; the only admissible guard is the rate limit
     ra = P.func(f"{LDM}.ldm_maintenance_reactive.LDMMaintenanceReactive.add_provider_data")
     rfl = ctx.flows.get(ra)
